@@ -14,12 +14,14 @@ open Tak FPA
 /-- the square of a move as the regenerated `tak.Move` (the centre tests read `X`, `Y` only) -/
 def genSquare (x y : Int) : Gen.Move := { X := x, Y := y, Type_ := 2#8, Slides := 0#32 }
 
+/-- helper: Go's `int8(p.Size()/2)` is the model's `mid` (no wrap below size 250) -/
 theorem mid_eq (v : View) (h : v.size < 250) :
     Gen.wrap8 (Int.tdiv (v.size : Int) 2) = mid v ∧ 0 ≤ mid v ∧ mid v < 125 := by
   unfold mid Gen.wrap8
   rw [Int.tdiv_eq_ediv_of_nonneg (by omega)]
   refine ⟨?_, ?_, ?_⟩ <;> omega
 
+/-- helper: `p.Size()%2 == 1` in Go's truncated remainder and in the model's `Nat` remainder -/
 theorem odd_eq (v : View) : (Int.tmod (v.size : Int) 2 == 1) = (v.size % 2 == 1) := by
   rw [Int.tmod_eq_emod_of_nonneg (by omega)]
   by_cases h : v.size % 2 = 1
@@ -30,6 +32,7 @@ theorem odd_eq (v : View) : (Int.tmod (v.size : Int) 2 == 1) = (v.size % 2 == 1)
     have e2 : (v.size % 2 == 1) = false := by simpa using h
     rw [e1, e2]
 
+/-- helper: `wrap8` is the identity on [-128, 127] -/
 theorem w8 (a : Int) (h1 : -128 ≤ a) (h2 : a < 128) : Gen.wrap8 a = a := by
   unfold Gen.wrap8; omega
 
